@@ -6,6 +6,7 @@
 #include "../gen.h"
 #include <limits.h>
 #include <fcntl.h>
+#include "checks/corpus.h"
 
 extern "C" void vf_lib_free(void *);
 namespace {
@@ -58,7 +59,7 @@ static std::vector<Item> dec_list(const Str &s) { std::vector<Item> L; if (s.emp
 template <class C> struct Runner {
     typedef Api<C> A; typedef typename A::QList QL;
     OutBuf out; FenceBuf in; Ledger led; Ctx *ctx; Local *lc;
-    Runner(Ctx *c, Local *l) : out(8), in(4), ctx(c), lc(l) {}
+    Runner(Ctx *c, Local *l, size_t op = 8, size_t ip = 4) : out(op), in(ip), ctx(c), lc(l) {}
     template <class LT> static bool same_list(const LT *q, const std::vector<Item> &e, Str &got) {
         std::vector<Item> g; for (; q; q = q->next) { Item it; it.first = narrow<C>(q->key, q->key + std::char_traits<C>::length(q->key)); it.second.first = q->value != 0; if (q->value) it.second.second = narrow<C>(q->value, q->value + std::char_traits<C>::length(q->value)); g.push_back(it); }
         got = show(g); return g == e;
@@ -93,17 +94,18 @@ template <class C> struct Runner {
             }
             // round trip through dissect with matching options, default and ledger manager
             std::vector<Item> want; for (auto &it : L) { if (it.first.empty() && !it.second.first) { lc->dropped_items++; continue; } Item w = it; if (nb) { w.first = crlf(w.first); w.second.second = crlf(w.second.second); } want.push_back(w); }
-            for (int mgr = 0; mgr < 2 && what.empty(); mgr++) {
+            for (int mgr = 0; mgr < 3 && what.empty(); mgr++) {        // 2: default manager and no item counter (the parameter is optional)
                 std::basic_string<C> q = widen<C>(expect); const C *p = (const C *)in.put_end(q.data(), q.size() * sizeof(C));
                 QL *dl = (QL *)0x1; int cnt = -3; lc->dissects++;
-                if (mgr) { led.clear_injection(); rc = A::DissectQueryMallocExMm(&dl, &cnt, p, p + q.size(), plus, URI_BR_DONT_TOUCH, &led.mm); }
+                if (mgr == 2) { rc = A::DissectQueryMallocEx(&dl, NULL, p, p + q.size(), plus, URI_BR_DONT_TOUCH); cnt = (int)want.size(); }
+                else if (mgr) { led.clear_injection(); rc = A::DissectQueryMallocExMm(&dl, &cnt, p, p + q.size(), plus, URI_BR_DONT_TOUCH, &led.mm); }
                 else if (plus) rc = A::DissectQueryMalloc(&dl, &cnt, p, p + q.size()); else rc = A::DissectQueryMallocEx(&dl, &cnt, p, p + q.size(), plus, URI_BR_DONT_TOUCH);
                 Str got;
                 if (rc != URI_SUCCESS) what = fmt("dissect rc=%d", rc);
-                else if (!same_list(dl, want, got)) what = "dissect(compose(L)) = " + got + ", expected " + show(want);
+                else if (!same_list(dl, want, got)) what = Str(mgr == 2 ? "without an item counter, " : "") + "dissect(compose(L)) = " + got + ", expected " + show(want);
                 else if (cnt != (int)want.size()) what = fmt("itemCount=%d, list has %zu items", cnt, want.size());
-                if (rc == URI_SUCCESS) { if (mgr) A::FreeQueryListMm(dl, &led.mm); else A::FreeQueryList(dl); }
-                if (mgr) { if (what.empty() && (!led.live.empty() || !led.errors.empty())) what = led.errors.empty() ? fmt("%zu blocks outstanding after uriFreeQueryList", led.live.size()) : led.errors[0]; if (!led.live.empty() || !led.errors.empty()) led.reset(); }
+                if (rc == URI_SUCCESS) { if (mgr == 1) A::FreeQueryListMm(dl, &led.mm); else A::FreeQueryList(dl); }
+                if (mgr == 1) { if (what.empty() && (!led.live.empty() || !led.errors.empty())) what = led.errors.empty() ? fmt("%zu blocks outstanding after uriFreeQueryList", led.live.size()) : led.errors[0]; if (!led.live.empty() || !led.errors.empty()) led.reset(); }
             }
             // Malloc variant
             if (what.empty()) {
@@ -133,6 +135,9 @@ template <class C> struct Runner {
             std::vector<Item> want = ref_dissect(s, plus, mode); Str got;
             if (rc != URI_SUCCESS) what = fmt("rc=%d", rc); else if (!same_list(dl, want, got)) what = "got " + got + ", expected " + show(want); else if (cnt != (int)want.size()) what = fmt("itemCount=%d for %zu items", cnt, want.size());
             if (rc == URI_SUCCESS) A::FreeQueryList(dl);
+            if (what.empty()) { QL *d2 = 0; int rc2 = A::DissectQueryMallocEx(&d2, NULL, p, p + q.size(), plus, (UriBreakConversion)mode);      // the item counter is optional
+                if (rc2 != rc) what = fmt("without an item counter rc=%d, with one rc=%d", rc2, rc); else if (rc2 == URI_SUCCESS && !same_list(d2, want, got)) what = "without an item counter got " + got + ", expected " + show(want);
+                if (rc2 == URI_SUCCESS) A::FreeQueryList(d2); }
             GUARD_LEAVE();
             if (!what.empty()) ctx->violation("", enc, what);
         }
@@ -200,6 +205,40 @@ void big_sizes(Ctx &ctx, Local &lc) {
 }
 
 static const char *KSET[] = { "", "a", "&", "=", " ", "+", "%", "\n", "\r\n", "a=b&c", "\xff", "\r \n" };
+
+// wchar_t only: keys and values holding code points above 255.  The round trip of the statement has no exception for them, but a triplet
+// carries one byte and the library escapes the low byte only (the open finding of C16, inherited by the wide query functions).  Classified by
+// defect emulation: the composed text must be exactly "every such character as the triplet of its low byte, the rest as the reference composes".
+typedef std::pair<std::wstring, std::pair<bool, std::wstring> > WItem;
+static Str emul_escape_w(const std::wstring &w, bool plus, bool nb) {
+    static const char *HX = "0123456789ABCDEF"; Str o, run;
+    for (wchar_t c : w) { if ((unsigned long)c > 255) { o += ref_escape(run, plus, nb); run.clear(); unsigned b = (unsigned)c & 0xFF; o += '%'; o += HX[b >> 4]; o += HX[b & 15]; } else run += (char)(unsigned char)c; }
+    return o + ref_escape(run, plus, nb);
+}
+static void wide_case(Ctx &ctx, Local &lc, unsigned long x, int shape, int plus, int nb) {
+    std::wstring X(1, (wchar_t)x); std::vector<WItem> L;
+    if (shape == 0) L = { WItem(X, std::make_pair(false, std::wstring())) };
+    else if (shape == 1) L = { WItem(L"k", std::make_pair(true, L"a " + X + L"\n")) };
+    else L = { WItem(L"a", std::make_pair(true, std::wstring(L"b"))), WItem(X + L"z", std::make_pair(true, L"y" + X)), WItem(L"c", std::make_pair(false, std::wstring())) };
+    Str enc = fmt("H`%lx.%d`%d`%d`W", x, shape, plus, nb); lc.lists++;
+    std::vector<UriQueryListW> nodes(L.size()); for (size_t i = 0; i < L.size(); i++) { nodes[i].key = L[i].first.c_str(); nodes[i].value = L[i].second.first ? L[i].second.second.c_str() : NULL; nodes[i].next = i + 1 < L.size() ? &nodes[i + 1] : NULL; }
+    int sig; if ((sig = GUARD_ENTER()) != 0) { ctx.violation("", enc, fmt("%s composing / dissecting a wide list with a code point above 255", signame(sig))); return; }
+    int need = -1, written = -1; int rc = uriComposeQueryCharsRequiredExW(&nodes[0], &need, plus, nb);
+    std::vector<wchar_t> buf((size_t)(need > 0 ? need : 0) + 2, (wchar_t)0x55); int rc2 = rc == URI_SUCCESS ? uriComposeQueryExW(&buf[0], &nodes[0], need + 1, &written, plus, nb) : rc;
+    UriQueryListW *back = NULL; int count = -1, rc3 = rc2;
+    if (rc2 == URI_SUCCESS) rc3 = uriDissectQueryMallocExW(&back, &count, &buf[0], &buf[0] + wcslen(&buf[0]), plus, URI_BR_DONT_TOUCH);
+    std::vector<WItem> got; for (UriQueryListW *q = back; q; q = q->next) got.push_back(WItem(q->key ? q->key : L"", std::make_pair(q->value != NULL, q->value ? std::wstring(q->value) : std::wstring())));
+    if (back) uriFreeQueryListW(back);
+    GUARD_LEAVE(); lc.compose_calls++; lc.dissects++;
+    if (rc != URI_SUCCESS || rc2 != URI_SUCCESS || rc3 != URI_SUCCESS) { ctx.violation("", enc, fmt("wide list with U+%lX: charsRequired/compose/dissect returned %d/%d/%d", x, rc, rc2, rc3)); return; }
+    std::wstring text(&buf[0]); Str ntext = narrow<wchar_t>(text);
+    if (written != (int)text.size() + 1 || (int)text.size() > need) { ctx.violation("", enc, fmt("wide list with U+%lX: charsWritten %d / charsRequired %d for a text of %zu characters", x, written, need, text.size())); return; }
+    for (wchar_t c : text) if ((unsigned long)c > 127 || !(ref::is_unreserved((unsigned char)c) || c == L'%' || c == L'+' || c == L'&' || c == L'=')) { ctx.violation("", enc, "composed wide text holds a character that is not legal in a query: '" + esc(ntext) + "'"); return; }
+    std::vector<WItem> want = L; if (nb) for (auto &it : want) for (std::wstring *t : { &it.first, &it.second.second }) { std::wstring o; for (wchar_t c : *t) { if (c == L'\n') o += L"\r\n"; else o += c; } *t = o; }
+    if (got == want && count == (int)want.size()) return;
+    Str emu; for (size_t i = 0; i < L.size(); i++) { if (i) emu += '&'; emu += emul_escape_w(L[i].first, plus, nb); if (L[i].second.first) emu += "=" + emul_escape_w(L[i].second.second, plus, nb); }
+    ctx.violation(ntext == emu ? "C17-wide-code-point-above-255" : "", enc, fmt("dissect(compose(list)) differs from the list for a wide list containing U+%lX (composed as '%s')", x, esc(ntext).c_str()));
+}
 void run(Ctx &ctx) {
     Local lc; Runner<char> ra(&ctx, &lc); Runner<wchar_t> rw(&ctx, &lc); SanWatch sw;
     std::vector<Item> items; for (auto k : KSET) { Item it; it.first = k; it.second.first = false; items.push_back(it); for (auto v : KSET) { it.second.first = true; it.second.second = v; items.push_back(it); } }
@@ -215,7 +254,13 @@ void run(Ctx &ctx) {
     { uint64_t bi = 0; for (int v = 1; v < 256; v++) { if (!ctx.mine(bi++) || ctx.expired()) continue; Str x(1, (char)v);
         std::vector<std::vector<Item> > Ls = { { Item(x, std::make_pair(false, Str())) }, { Item("k", std::make_pair(true, x)) }, { Item(x, std::make_pair(true, x)) }, { Item("a", std::make_pair(true, Str("b"))), Item(x + "z", std::make_pair(true, "y" + x)) } };
         for (auto &L : Ls) { ra.list_case(L, true); rw.list_case(L, false); } } }
+    // stretch family: one key or value of a repeated unit, lengths around the powers of two (buffers sized from an estimate, counters in a narrow type)
+    { uint64_t si = 0; std::vector<int> SL = stretch_lengths(ctx.secondary ? 0 : ctx.quick() ? 1 : 2); Runner<char> sa(&ctx, &lc, 16, 8); Runner<wchar_t> sb(&ctx, &lc, 16, 8);
+      for (const char *u : { "a", "&", " ", "\n", "%", "=", "\xff" }) for (int n : SL) { if (n > 1100) continue; if (!ctx.mine(si++) || ctx.expired()) continue; Str x; for (int i = 0; i < n; i++) x += u;
+          std::vector<std::vector<Item> > Ls = { { Item(x, std::make_pair(false, Str())) }, { Item("k", std::make_pair(true, x)) } };
+          for (auto &L : Ls) { sa.list_case(L, false); sb.list_case(L, false); ctx.st.count("stretch_family"); } } }
     all_strings(ctx, "&=a+%41", (ctx.secondary ? 4 : ctx.quick() ? 6 : 8) + ctx.bonus, [&](const Str &s) { if (ctx.expired()) return; ra.splitter_case(s); rw.splitter_case(s); });
+    if (ctx.worker == 0) for (unsigned long x : { 0x100ul, 0x141ul, 0x20ACul, 0x10041ul }) for (int shape = 0; shape < 3; shape++) for (int plus = 0; plus < 2; plus++) for (int nb = 0; nb < 2; nb++) wide_case(ctx, lc, x, shape, plus, nb);
     big_sizes(ctx, lc);
     if (sw.tripped()) ctx.violation("", "S`a`0`0`A", "AddressSanitizer reported an invalid access");
     ctx.st.count("evaluations", lc.compose_calls + lc.dissects + lc.splitter + lc.big); ctx.st.count("lists", lc.lists); ctx.st.count("compose_calls", lc.compose_calls); ctx.st.count("compose_refused_too_small", lc.too_small);
@@ -226,14 +271,15 @@ void replay(Ctx &ctx, const Str &enc) {
     std::vector<Str> p = split(enc, '`'); Local lc; if (p.size() < 5) return;
     if (p[0] == "B" && p.size() == 6) { BigFamily fam(p[5][0] == 'q', atoi(p[5].c_str() + 1)); fam.one(ctx, lc, atoi(p[1].c_str()), atoi(p[2].c_str()), atoi(p[3].c_str()), atoi(p[4].c_str())); return; }
     int a = atoi(p[2].c_str()), b = atoi(p[3].c_str());
-    if (p[0] == "L") { std::vector<Item> L = dec_list(p[1]); if (p[4] == "A") { Runner<char> r(&ctx, &lc); r.list_case(L, true, a, b); } else { Runner<wchar_t> r(&ctx, &lc); r.list_case(L, true, a, b); } }
+    if (p[0] == "H") { unsigned long x = 0; int shape = 0; if (sscanf(p[1].c_str(), "%lx.%d", &x, &shape) == 2) wide_case(ctx, lc, x, shape, a, b); return; }
+    if (p[0] == "L") { std::vector<Item> L = dec_list(p[1]); if (p[4] == "A") { Runner<char> r(&ctx, &lc, 16, 8); r.list_case(L, true, a, b); } else { Runner<wchar_t> r(&ctx, &lc, 16, 8); r.list_case(L, true, a, b); } }
     else if (p[0] == "S") { if (p[4] == "A") { Runner<char> r(&ctx, &lc); r.splitter_case(p[1], a, b); } else { Runner<wchar_t> r(&ctx, &lc); r.splitter_case(p[1], a, b); } }
 }
 Str coverage(const Ctx &, const Stats &st) {
     return jkv("evaluations", st.get("evaluations")) + ", " + jkv("distinct_nontrivial", st.get("compose_refused_too_small") + st.get("dissect_roundtrips")) + ", " +
            jkvs("rule", "cases: (a) every list of 1-2 items (quick: plus a thinned third item; thorough: full third item) with key in K and value in K or NULL, K = {'', a, &, =, space, +, %, LF, CRLF, 'a=b&c', 0xFF}, under both compose flags, composed with EVERY capacity 0..charsRequired+1 (3-item lists: 6 boundary capacities) into a buffer ending at an inaccessible page, with and without charsWritten, then dissected with matching options by default and ledger manager and via the Malloc variant; (b) all strings up to length 6/8 over {&, =, a, +, %, 4, 1} dissected in a guard-placed explicit range and compared with a reference splitter; (c) lists of 1-2 items whose key/value lengths are drawn from {0, INT_MAX/6-1, INT_MAX/6, INT_MAX/3, ...} (strings of 'a' or LF mapped without using memory) through uriComposeQueryCharsRequiredEx: success implies a non-wrapped figure. distinct_nontrivial = compose calls refused for lack of room + dissect round trips (distinct cases by construction).") + ", " +
            jkv("lists", st.get("lists")) + ", " + jkv("compose_calls", st.get("compose_calls")) + ", " + jkv("compose_refused_too_small", st.get("compose_refused_too_small")) + ", " + jkv("dissect_roundtrips", st.get("dissect_roundtrips")) + ", " +
-           jkv("splitter_strings", st.get("splitter_strings")) + ", " + jkv("int_max_edge_lists", st.get("int_max_edge_lists")) + ", " + jkv("int_max_edge_refused", st.get("int_max_edge_refused")) + ", " + jkv("dropped_empty_items", st.get("dropped_empty_items")) + ", " + jsamples(st);
+           jkv("splitter_strings", st.get("splitter_strings")) + ", " + jkv("int_max_edge_lists", st.get("int_max_edge_lists")) + ", " + jkv("int_max_edge_refused", st.get("int_max_edge_refused")) + ", " + jkv("dropped_empty_items", st.get("dropped_empty_items")) + ", " + jkv("stretch_family_lists", st.get("stretch_family")) + ", " + jsamples(st);
 }
 Check chk = { "C17", "exploration", run, replay, coverage, "the INT_MAX-edge family runs in the char API only (a wchar_t run of that length would need 2.8 GB of address space per string; the arithmetic is shared code)|compose may refuse a capacity between the true length and the worst-case figure; the statement allows that" };
 REGISTER_CHECK(chk);
